@@ -316,10 +316,41 @@ def selected(co) -> bool:
     return True
 
 
+def extent_writers() -> set[tuple[str, str]]:
+    """Writers of shared state found by the AST scan OUTSIDE the hand-selected files (class-construction hooks excepted):
+    while one of them is on a thread's stack, every line of sqlglot code that thread executes is a scheduling point, so a table
+    that is published first and filled by a callee afterwards can be caught half-filled."""
+    global _EXTENT
+    if _EXTENT is None:
+        _EXTENT = {w for w in shared_writers() if w[0] not in SEL_FILES and not w[1].endswith("__init_subclass__")}
+    return _EXTENT
+
+
+_EXTENT: set[tuple[str, str]] | None = None
+
+
+_IN_EXTENT: dict[int, int] = {}   # thread id -> number of extent-writer frames on its stack
+
+
 def _tracer(frame, event, arg):
-    if selected(frame.f_code):
+    co = frame.f_code
+    if (co.co_filename, co.co_qualname) in extent_writers():
+        tid = _thread.get_ident()
+        _IN_EXTENT[tid] = _IN_EXTENT.get(tid, 0) + 1
+        return _local_extent_root
+    if selected(co):
+        return _local
+    if _IN_EXTENT.get(_thread.get_ident()) and co.co_filename.startswith(SQLGLOT):
         return _local
     return None
+
+
+def _local_extent_root(frame, event, arg):
+    if event == "return":
+        tid = _thread.get_ident()
+        _IN_EXTENT[tid] = _IN_EXTENT.get(tid, 1) - 1
+        return _local_extent_root
+    return _local(frame, event, arg) and _local_extent_root
 
 
 def _local(frame, event, arg):
